@@ -93,6 +93,9 @@ def apply_step(c, st):
             raise ValueError('unknown wrapper ' + which)
         if circ_to_json(other) != before:
             raise AssertionError('attached circuit was modified')
+    elif name == 'into_circuit':
+        # the current circuit is replaced by the extracted block
+        return c.get_block(st[1]).into_circuit()
     elif name == 'replace_subcircuit':
         sub = circ_from_json(st[1])
         c.replace_subcircuit(sub, dict(map(tuple, st[2])), dict(map(tuple, st[3])))
